@@ -561,7 +561,7 @@ def _witness(solver, p, lt_, rt_):
     symbols given their real meaning) every lemma the proof could use must be
     true and the two sides must agree, so the twin 'lhs = rhs + 1' is violated
     there.  A false lemma or an unsatisfiable path makes this fail."""
-    r, m = solver.model(p.conds + _spread(p.conds, 3))
+    r, m = _spread_model(solver, p.conds, 3)
     if r != 'sat':
         r, m = solver.model(p.conds)
     if r != 'sat':
@@ -606,7 +606,7 @@ def _witness(solver, p, lt_, rt_):
 def _path_env(solver, p):
     env = getattr(p, '_env', None)
     if env is None:
-        r, m = solver.model(p.conds + _spread(p.conds, 3))
+        r, m = _spread_model(solver, p.conds, 3)
         if r != 'sat':
             r, m = solver.model(p.conds)
         env = _fl(m) if r == 'sat' else False
@@ -702,7 +702,7 @@ def _settle(res, fn, cfg, opts, solver, p, label, verdict, env, shown,
 
 def _path_point(solver, p):
     try:
-        r, m = solver.model(p.conds + _spread(p.conds, 3))
+        r, m = _spread_model(solver, p.conds, 3)
         if r != 'sat':
             r, m = solver.model(p.conds)
         if r != 'sat':
@@ -731,7 +731,7 @@ def _differs_at(point, lt_, rt_):
 
 def _numeric_witness(solver, p, lt_, rt_):
     try:
-        r, m = solver.model(p.conds + _spread(p.conds, 3))
+        r, m = _spread_model(solver, p.conds, 3)
         if r != 'sat':
             r, m = solver.model(p.conds)
         if r != 'sat':
@@ -805,7 +805,7 @@ def _violation(res, fn, cfg, opts, solver, p, label, env, detail,
     # nearby generic points rescue counter-examples whose abstract atoms
     # were given impossible values by the solver
     for k in range(opts.get('replay_candidates', 3)):
-        r, m = solver.model(p.conds + _spread(p.conds, k))
+        r, m = _spread_model(solver, p.conds, k)
         if r == 'sat':
             candidates.append(_fl(m))
     outcome = 'not reproduced'
@@ -889,7 +889,18 @@ def _violation(res, fn, cfg, opts, solver, p, label, env, detail,
              % detail))
 
 
-def _spread(conds, k):
+def _spread_model(solver, conds, k):
+    """a model of the path at a generic point: first with magnitudes of either
+    sign (short budget -- on long non-linear paths the two-interval
+    disjunctions can be slow), then with the weaker 'negative or generic'
+    constraint"""
+    r, m = solver.model(conds + _spread(conds, k), timeout_ms=4000)
+    if r == 'sat':
+        return r, m
+    return solver.model(conds + _spread(conds, k, weak=True))
+
+
+def _spread(conds, k, weak=False):
     """Extra constraints pushing variables to generic distinct values."""
     names = T.variables(conds)
     out = []
@@ -902,6 +913,10 @@ def _spread(conds, k):
         # (a generic magnitude of either sign: "any negative value" let the
         # solver give every variable the same -1, a point where terms that
         # differ in one identifier coincide)
+        if weak:
+            out.append(T.lor(T.lt(v, T.ZERO),
+                             T.land(T.le(lo, v), T.le(v, hi))))
+            continue
         nlo = T.const(-(_default_value(n + str(k)) + 0.05))
         nhi = T.const(-(_default_value(n + str(k)) - 0.05))
         out.append(T.lor(T.land(T.le(nlo, v), T.le(v, nhi)),
@@ -913,7 +928,7 @@ def _diffcheck(res, fn, cfg, opts, solver, p, obls):
     """Executor fidelity: at a concrete point of this path, the symbolic
     terms evaluated in floats must agree with the float run of the same case
     (real NumPy, no facade)."""
-    r, m = solver.model(p.conds + _spread(p.conds, 7))
+    r, m = _spread_model(solver, p.conds, 7)
     if r != 'sat':
         r, m = solver.model(p.conds)
     if r != 'sat':
